@@ -394,6 +394,9 @@ class Effects:
                     out.append(Site("ValueError", "implicit", fi, n, True, "%s() of text" % cn))
                 elif cn == "open":
                     out.append(Site("OSError", "implicit", fi, n, True, "open() of a path"))
+                elif cn in ("subprocess.Popen", "subprocess.run", "subprocess.call", "subprocess.check_call", "subprocess.check_output",
+                            "Popen"):
+                    out.append(Site("OSError", "implicit", fi, n, True, "%s(): the program / file may be missing, not executable, a directory" % cn))
                 elif isinstance(n.func, ast.Attribute) and n.func.attr == "encode" and n.args and const(n.args[0]) == "ascii":
                     if not any(k.arg == "errors" and const(k.value) in ("replace", "ignore", "backslashreplace", "xmlcharrefreplace") for k in n.keywords):
                         out.append(Site("UnicodeEncodeError", "implicit", fi, n, False, ".encode('ascii') of text of unknown provenance"))
